@@ -33,11 +33,15 @@ def dfinds (q : E → Bool) (cs : List Child) : List E := (directCs cs).flatMap 
 
 def uq (cfg : Cfg) (xs : List E) : List E := if cfg.unique then uniqE xs else xs
 
+/-- the finds a node holds itself: its traversable expressions, for a declaration also the initial values -/
+def ownFinds (q : E → Bool) (k : String) (cs : List Child) : List E :=
+  dfinds q cs ++ (if isVarDecl k then initials q (symbolsOf cs) else [])
+
 mutual
 def pairsN (cfg : Cfg) (q : E → Bool) : Node → List R
   | .mk k u _ cs _ =>
     if isTypeDef k then [] else
-      pairsCs cfg q cs ++ (if (dfinds q cs).isEmpty then [] else [R.pair u (itemsE (uq cfg (dfinds q cs)))])
+      pairsCs cfg q cs ++ (if (ownFinds q k cs).isEmpty then [] else [R.pair u (itemsE (uq cfg (ownFinds q k cs)))])
 def pairsC (cfg : Cfg) (q : E → Bool) : Child → List R
   | .e _ => []
   | .junk _ => []
@@ -52,20 +56,6 @@ def R.found : R → List Item
   | .item i => [i]
   | .pair _ xs => xs
   | .tpair _ xs => xs
-
-mutual
-/-- the tree contains a `VariableDeclaration` (outside derived-type definitions, which the finders do not enter) -/
-def hasDeclN : Node → Bool
-  | .mk k _ _ cs _ => if isTypeDef k then false else isVarDecl k || hasDeclCs cs
-def hasDeclC : Child → Bool
-  | .e _ => false
-  | .junk _ => false
-  | .n x => hasDeclN x
-  | .grp cs => hasDeclCs cs
-def hasDeclCs : List Child → Bool
-  | [] => false
-  | c :: cs => hasDeclC c || hasDeclCs cs
-end
 
 mutual
 /-- some node that the finders reach has an expression in a field that is not traversable -/
